@@ -1,4 +1,4 @@
-SPECIFICATION Spec
+SPECIFICATION FairSpec
 CONSTANTS
   MaxLogs = 2
   PageSizes = {1, 2}
@@ -8,11 +8,7 @@ CONSTANTS
   MaxRestarts = 1
   JoinSubscriber = FALSE
   Mutant = "none"
-  LateAccepts = TRUE
+  LateAccepts = FALSE
   RecordHist = FALSE
-INVARIANTS
-  TypeOK
-  InvBatchContiguous
-  InvPersistedLeAcked
-  InvLastLeAcked
-  InvNoGapEver
+PROPERTIES
+ LiveAllAcceptedSinceReset
